@@ -61,6 +61,13 @@ Find(T, scope, f) ==
   ELSE IF Len(f.segs) > 1 THEN FindRel(T, scope, f.segs)
   ELSE IF Len(f.segs) = 1 THEN FindUp(T, scope, f.segs[1])
   ELSE Nil
+\* the path in front of the last segment of a declared name.  It keeps its dual / multi name prefix byte, so even a
+\* single remaining segment is looked up RELATIVE to the scope (no search through the enclosing scopes)
+FindPrefix(T, scope, f) ==
+  IF scope = Nil THEN Nil
+  ELSE IF f.abs THEN FindRel(T, 1, Front(f.segs))
+  ELSE IF f.carets > 0 THEN FindRel(T, UpLevels(T, scope, f.carets), Front(f.segs))
+  ELSE FindRel(T, scope, Front(f.segs))
 \* a complete name string (target of a Scope directive): a prefix followed by the null name keeps the prefix
 \* (repaired in /repo a260b8c; before, it was read as the empty string, which Find rejects - finding D8)
 FindName(T, scope, f) == IF f.segs = <<>> /\ ~f.abs /\ f.carets = 0 THEN Nil ELSE Find(T, scope, f)
@@ -109,27 +116,30 @@ BuildTok(bs, t, tab, bug) ==
     [] t.k = "else"  -> [bs EXCEPT !.stack = Append(@, b)]
     [] t.k = "close" -> [bs EXCEPT !.stack = Front(@)]
 
-(* ---- pass 2a: mergeScopeDirectives.  c = [tab, pass, relocated, bug]; result [T, res] *)
-Worse(a, b) == IF a = "fail" \/ b = "fail" THEN "fail" ELSE IF a = "crash" \/ b = "crash" THEN "crash"
+(* ---- pass 2a: mergeScopeDirectives.  c = [tab, pass, progress, bug]; result [T, res, cnt] *)
+Worse(a, b) == IF a = "giveup" \/ b = "giveup" THEN "giveup" ELSE IF a = "fail" \/ b = "fail" THEN "fail" ELSE IF a = "crash" \/ b = "crash" THEN "crash"
                ELSE IF a = "extra" \/ b = "extra" THEN "extra" ELSE "ok"
+\* c.progress = what the previous pass achieved: objects relocated (pinned design, "GiveUpOnRelocationsOnly") or
+\* scopes merged + objects relocated (repaired design).  A directive whose target is missing gives up when that is 0.
 RECURSIVE MergeNode(_, _, _), MergeFrom(_, _, _)
 MergeNode(T, n, c) ==
   IF T[n].op = "scopedir" /\ T[n].tab = c.tab
   THEN LET tgt == FindName(T, T[n].par, T[n].f) IN
-       IF tgt = Nil THEN [T |-> T, res |-> IF c.pass > 1 /\ c.relocated = 0 THEN "fail" ELSE "extra"]
+       IF tgt = Nil THEN [T |-> T, res |-> IF c.pass > 1 /\ c.progress = 0 THEN "giveup" ELSE "extra", cnt |-> 0]
        ELSE LET tb == BlockOf(T, tgt, c.bug) IN
-            IF tb = Nil THEN [T |-> T, res |-> "fail"]
+            IF tb = Nil THEN [T |-> T, res |-> "fail", cnt |-> 0]
             ELSE LET blk == Last(T[n].kids)
                      moved == T[blk].kids
                      T2 == Free(Free(MoveAll(T, moved, tb), blk), n) IN
-                 IF moved = <<>> THEN [T |-> T2, res |-> "ok"] ELSE MergeFrom(T2, Head(moved), c)
-  ELSE IF T[n].kids = <<>> THEN [T |-> T, res |-> "ok"] ELSE MergeFrom(T, Head(T[n].kids), c)
+                 IF moved = <<>> THEN [T |-> T2, res |-> "ok", cnt |-> 1]
+                 ELSE LET r == MergeFrom(T2, Head(moved), c) IN [r EXCEPT !.cnt = @ + 1]
+  ELSE IF T[n].kids = <<>> THEN [T |-> T, res |-> "ok", cnt |-> 0] ELSE MergeFrom(T, Head(T[n].kids), c)
 MergeFrom(T, x, c) ==                          \* x and the siblings after it (next sibling read before descending)
-  IF x = Nil THEN [T |-> T, res |-> "ok"]
+  IF x = Nil THEN [T |-> T, res |-> "ok", cnt |-> 0]
   ELSE LET nx == NextSib(T, x)
            r  == MergeNode(T, x, c) IN
-       IF r.res = "fail" THEN r
-       ELSE LET r2 == MergeFrom(r.T, nx, c) IN [T |-> r2.T, res |-> Worse(r.res, r2.res)]
+       IF r.res \in {"fail", "giveup"} THEN r
+       ELSE LET r2 == MergeFrom(r.T, nx, c) IN [T |-> r2.T, res |-> Worse(r.res, r2.res), cnt |-> r.cnt + r2.cnt]
 
 (* ---- pass 2b: relocateNamedObjects.  result [T, res, cnt] *)
 HasPath(f) == f.abs \/ f.carets > 0 \/ Len(f.segs) > 1
@@ -137,7 +147,7 @@ RECURSIVE RelocNode(_, _, _), RelocFrom(_, _, _)
 RelocKids(T, n, c) == IF T[n].kids = <<>> THEN [T |-> T, res |-> "ok", cnt |-> 0] ELSE RelocFrom(T, Head(T[n].kids), c)
 RelocNode(T, n, c) ==
   IF T[n].op = "obj" /\ T[n].tab = c.tab /\ HasPath(T[n].f)
-  THEN LET tgt == Find(T, CNA(T, T[n].par), [T[n].f EXCEPT !.segs = Front(@)]) IN
+  THEN LET tgt == FindPrefix(T, CNA(T, T[n].par), T[n].f) IN
        IF tgt = Nil THEN [T |-> T, res |-> IF c.pass > MaxResolvePasses THEN "fail" ELSE "extra", cnt |-> 0]
        ELSE LET tb == BlockOf(T, tgt, c.bug) IN
             IF tb = Nil THEN [T |-> T, res |-> "fail", cnt |-> 0]
@@ -154,16 +164,19 @@ RelocFrom(T, x, c) ==
        ELSE LET r2 == RelocFrom(r.T, nx, c) IN [T |-> r2.T, res |-> Worse(r.res, r2.res), cnt |-> r.cnt + r2.cnt]
 
 RECURSIVE Passes(_, _, _, _, _)                \* result [T, res, n]: n = merge/relocate passes taken (p.resolvePasses)
-Passes(T, tab, pass, relocated, bug) ==
-  LET c == [tab |-> tab, pass |-> pass, relocated |-> relocated, bug |-> bug]
+Passes(T, tab, pass, progress, bug) ==
+  LET c == [tab |-> tab, pass |-> pass, progress |-> progress, bug |-> bug]
       m == MergeNode(T, 1, c) IN
-  IF m.res = "fail" THEN [T |-> m.T, res |-> "error", n |-> pass]
+  IF m.res \in {"fail", "giveup"} THEN [T |-> m.T, res |-> IF m.res = "giveup" THEN "giveup" ELSE "error", n |-> pass]
   ELSE LET r == RelocNode(m.T, 1, c) IN
        IF r.res = "fail" THEN [T |-> r.T, res |-> "error", n |-> pass]
        ELSE IF r.res = "crash" THEN [T |-> r.T, res |-> "crash", n |-> pass]
        ELSE IF m.res = "ok" /\ r.res = "ok" THEN [T |-> r.T, res |-> "ok", n |-> pass]
        ELSE IF pass > MaxResolvePasses + 3 THEN [T |-> r.T, res |-> "error", n |-> pass]
-       ELSE Passes(r.T, tab, pass + 1, IF bug = "CountersResetPerPass" THEN 0 ELSE r.cnt, bug)
+       ELSE Passes(r.T, tab, pass + 1,
+                   CASE bug = "CountersResetPerPass" -> 0
+                     [] bug = "GiveUpOnRelocationsOnly" -> r.cnt
+                     [] OTHER -> m.cnt + r.cnt, bug)
 
 (* ---- projection of the tree (as the Go harness projects the real one) *)
 RECURSIVE PathOf(_, _)
